@@ -78,7 +78,12 @@ fn get_4digit_str(a_str: &str, iteration: u16) -> Cow<'_, str> {
             if needed_str > len_str {
                 Cow::Owned(format!("{}{:0len$}", a_str, iteration, len = 4 - len_str))
             } else {
-                Cow::Owned(format!("{}{}", &a_str[0..needed_str], iteration))
+                // dont split a multi-byte char (tags with non-ascii chars)
+                let mut cut = needed_str;
+                while !a_str.is_char_boundary(cut) {
+                    cut -= 1;
+                }
+                Cow::Owned(format!("{}{}", &a_str[0..cut], iteration))
             }
         }
     }
